@@ -100,7 +100,12 @@ def _gen(seed: int, i: int, tier: str) -> dict:
         again = [["reenter"]] if tail or rng.random() < 0.5 else [["restart", rng.random() < 0.6]]
         ops = ops[:k] + tail + again + [["line", "255;255;3;0;3;\n"] for _ in range(rng.randint(1, 3))] + ops[k:]
         lat = []
-    return {"cfg": cfg, "proto": proto, "ops": ops, "tapes": {"w.lat": lat}, "ids": ids}
+    tapes = {"w.lat": lat}
+    if not cfg.get("persist") and rng.random() < 0.3:
+        # the write of an id response fails - before anything left (1) or after the link took the bytes (2): the next
+        # request (also a retry of the same node) may not be answered with the same id
+        tapes["w.fail.idresp"] = [rng.choice([0, 1, 2, 2]) for _ in range(rng.randint(1, 4))]
+    return {"cfg": cfg, "proto": proto, "ops": ops, "tapes": tapes, "ids": ids}
 
 
 def gen(seed: int, i: int, tier: str) -> dict:
